@@ -213,8 +213,8 @@ PLAN = {
               "for each (table, renderer) a fault-free run counts the Write calls W and records the output, then EVERY k in [0,W) x mode in {every call from k on fails, only call k fails, call k writes half of its bytes and reports an error while later calls succeed} "
               "is run on a freshly built table with a scripted io.Writer. After each fault the same wrapper is asked again, first with another writer failing once (prefix property again) and then with a healthy writer (the full fault-free output). A fifth of the tables have no header (csv, html, text); the injected error value is a private error, io.EOF, io.ErrShortWrite or io.ErrClosedPipe; a quarter of the writers also offer WriteString and WriteByte (a call to any of the three counts as a write); one table in sixty is replayed to tens of kilobytes of output (its write indices are sampled: every step-th plus the last two). Oracle: RenderTo returns a non-nil error, does not panic, and the concatenation of the bytes the writer accepted is a prefix of the fault-free output. "
               "Each (table, renderer, k, mode) is one evaluation and a distinct fault point; non-trivial if k > 0 or the mode is not 'fails from k on'."),
-        level_text="Fault enumeration: for every generated (table, renderer) pair the space of single write-fault points (index x 3 modes) is enumerated completely; tables are drawn by rapid. Complete per table, exploratory over tables.",
-        level_note="Faults are injected at io.Writer.Write granularity with three failure modes; multi-fault sequences (two separate failing calls) are not enumerated. Tables whose fault-free render fails are skipped (counted).",
+        level_text="Fault enumeration: for every generated (table, renderer) pair the space of single write-fault points (index x 3 modes) is enumerated completely (for the rare tables replayed to tens of kilobytes the indices are sampled: every step-th plus the last two); after each fault the same wrapper is driven through a second faulty render and a healthy one. Tables, error values and writer kinds are drawn by rapid. Complete per ordinary table, exploratory over tables.",
+        level_note="Faults are injected at the granularity of calls to the writer (Write, and WriteString/WriteByte when the writer offers them) with three failure modes; of multi-fault sequences only 'fault at k, then one fault in the next render on the same wrapper' is exercised. Tables whose fault-free render fails are skipped (counted).",
         technique="fault injection enumerated over every write index x failure mode, on rapid-generated tables (property-based testing)",
         quick=[rapid("prop", "TestProp", 80, shards=4, min_evals=80)],
         thorough=[rapid("prop", "TestProp", 2500, shards=16, min_evals=2500, timeout=6000)],
